@@ -18,7 +18,7 @@ TECHNIQUE = (
 )
 RULE = (
     "case = 1-8 inputs of 1-25 rows (unique id, score from a small dyadic value set incl. 0.0 and negatives => ties, "
-    "payload), sorted as declared, tsv/parquet, reader/merge chunk size 1..n+1, implementation in {utils.merge_sort, "
+    "payload; header names plain or not Python identifiers: 'mokapot score', 'Spec Id', 'scan-nr', 'class', '_rank'), sorted as declared, tsv/parquet, reader/merge chunk size 1..n+1, implementation in {utils.merge_sort, "
     "MergedTabularDataReader.read / chunked / row iterator (DataFrame, Dicts, Records), merge_readers}, descending "
     "(ascending too for the table merger); negative variant = one adjacent inversion in one input. Non-trivial: >=2 "
     "inputs, a score value shared by >=2 inputs, and chunk size < longest input. Distinct = distinct canonical JSON."
@@ -28,6 +28,12 @@ ASSUMPTIONS = [
     "every input has at least one row (the statement quantifies over inputs of 1..N rows)",
 ]
 VALUES = [-4.0, -2.0, -1.0, -0.5, -0.125, 0.0, 0.125, 0.25, 0.5, 1.0, 1.5, 2.0, 3.0, 8.0]
+# column layouts: header names need not be Python identifiers (PIN-style "Spec Id", dashes, keywords, leading "_")
+NAMES = {
+    "plain": ["id", "score", "payload", "num"],
+    "odd": ["id", "mokapot score", "Spec Id", "scan-nr"],
+    "kw": ["id", "score", "class", "_rank"],
+}
 IMPLS = ["merge_sort", "read", "chunked", "rows-df", "rows-dicts", "rows-records", "merge_readers"]
 
 
@@ -61,6 +67,7 @@ def _case(draw, tier):
         "neg_input": draw(st.integers(0, k - 1)),
         "neg_pos": draw(st.integers(0, 24)),
         "subset": draw(st.booleans()),
+        "names": draw(st.sampled_from(["plain", "plain", "odd", "kw"])),
     }
 
 
@@ -87,18 +94,20 @@ def check(case):
             p = pos[case["neg_pos"] % len(pos)]
             row[p], row[p + 1] = row[p + 1], row[p]
     ext = ".parquet" if case["fmt"] == "parquet" else ".tab"
+    cols = NAMES[case.get("names", "plain")]
+    c_id, c_score, c_pay, c_num = cols
     all_rows = {}
     with scratch_dir() as tmp:
         paths = []
         for fi, scores in enumerate(inputs):
             df = pd.DataFrame({
-                "id": [f"i{fi}_{j}" for j in range(len(scores))],
-                "score": np.array(scores, dtype=float),
-                "payload": [f"p{fi}x{j}" for j in range(len(scores))],
-                "num": [float(fi) + j / 64.0 for j in range(len(scores))],
+                c_id: [f"i{fi}_{j}" for j in range(len(scores))],
+                c_score: np.array(scores, dtype=float),
+                c_pay: [f"p{fi}x{j}" for j in range(len(scores))],
+                c_num: [float(fi) + j / 64.0 for j in range(len(scores))],
             })
             for r in df.to_dict("records"):
-                all_rows[r["id"]] = r
+                all_rows[r[c_id]] = r
             p = tmp / f"in{fi}{ext}"
             if ext == ".parquet":
                 df.to_parquet(p, index=False)
@@ -106,22 +115,21 @@ def check(case):
                 df.to_csv(p, sep="\t", index=False)
             paths.append(p)
         impl = case["impl"]
-        cols = ["id", "score", "payload", "num"]
-        req_cols = ["score", "id"] if (case["subset"] and impl in ("read", "chunked", "rows-dicts")) else None
+        req_cols = [c_score, c_id] if (case["subset"] and impl in ("read", "chunked", "rows-dicts")) else None
 
         def run():
             if impl == "merge_sort":
                 with config_inject.chunk_sizes(merge=case["chunk"]):
-                    return [dict(r) for r in mutils.merge_sort(paths, score_column="score")]
+                    return [dict(r) for r in mutils.merge_sort(paths, score_column=c_score)]
             readers = [td.TabularDataReader.from_path(p) for p in paths]
             if impl == "merge_readers":
-                it = stm.merge_readers(readers, "score", descending=desc, reader_chunk_size=case["chunk"])
+                it = stm.merge_readers(readers, c_score, descending=desc, reader_chunk_size=case["chunk"])
                 out = []
                 for ch in it:
                     require(len(ch) == 1, "merge_readers-chunk", f"chunk of {len(ch)} rows")
                     out.extend(ch.to_dict("records"))
                 return out
-            m = stm.MergedTabularDataReader(readers, "score", descending=desc, reader_chunk_size=case["chunk"])
+            m = stm.MergedTabularDataReader(readers, c_score, descending=desc, reader_chunk_size=case["chunk"])
             if impl == "read":
                 return m.read(columns=req_cols).to_dict("records")
             if impl == "chunked":
@@ -160,25 +168,27 @@ def check(case):
                             f"completed with {len(out)} rows (reader chunk {case['chunk']})")
         out = guarded(run, sig=impl)
     n = sum(len(x) for x in inputs)
-    ids = [r["id"] for r in out]
+    for r in out:
+        require(c_id in r, "columns", f"{impl}: row keys {list(r.keys())} for header {cols}")
+    ids = [r[c_id] for r in out]
     require(len(ids) == n and sorted(ids) == sorted(all_rows), "rows-lost-or-duplicated",
             f"{impl}: {len(ids)} rows out for {n} in; missing {sorted(set(all_rows) - set(ids))[:3]}, "
             f"duplicated {sorted({i for i in ids if ids.count(i) > 1})[:3]}")
     want = cols if req_cols is None else req_cols
     for r in out:
-        src = all_rows[r["id"]]
+        src = all_rows[r[c_id]]
         require(list(r.keys()) == want if impl != "merge_sort" else set(r) == set(cols), "columns", f"{impl}: row keys {list(r.keys())}")
         for c in want:
             a, b = r[c], src[c]
-            ok = (float(a) == float(b)) if c in ("score", "num") else (str(a) == str(b))
-            require(ok, "row-modified", f"{impl}: {r['id']} column {c}: {a!r} != {b!r}")
-    sc = [float(r["score"]) for r in out]
+            ok = (float(a) == float(b)) if c in (c_score, c_num) else (str(a) == str(b))
+            require(ok, "row-modified", f"{impl}: {r[c_id]} column {c}: {a!r} != {b!r}")
+    sc = [float(r[c_score]) for r in out]
     mono = all(a >= b for a, b in zip(sc, sc[1:])) if desc else all(a <= b for a, b in zip(sc, sc[1:]))
     require(mono, "not-sorted", f"{impl}: merged scores are not globally {'non-increasing' if desc else 'non-decreasing'}: {sc[:20]}")
     flat = [set(x) for x in inputs]
     shared = len(inputs) >= 2 and any(len([1 for s in flat if v in s]) >= 2 for v in set().union(*flat))
     nontrivial = len(inputs) >= 2 and shared and case["chunk"] < max(len(x) for x in inputs)
-    classes = [impl, case["fmt"], "desc" if desc else "asc"]
+    classes = [impl, case["fmt"], "desc" if desc else "asc", "names-" + case.get("names", "plain")]
     if any(0.0 in x for x in inputs):
         classes.append("has-zero")
     if any(len(x) == 1 for x in inputs):
